@@ -927,6 +927,7 @@ func (c17) Batch(seed uint64, wid, batch, count int, deadline time.Time, emit fu
 		if i%64 == 63 {
 			runtime.GC()
 		}
+		traceRun(i, res.Hash, res.Steps, fmt.Sprint(res.Viol != nil, res.GCs, c.Mode))
 		rec.Runs++
 		cn := rec.Counts
 		cn["mode_"+c.Mode]++
